@@ -63,7 +63,7 @@ func RegistryMix(t *testing.T, prop string) {
 				}()
 			}
 			close(start)
-			wg.Wait()
+			world.WaitOrDiagnose(t, &wg, prop+"/concurrent", fmt.Sprintf("binds and binding deletes for different server features at once (round %d, pattern %03b)", r, pattern))
 			w.Sync()
 			for p := range calls {
 				ok := 0
